@@ -33,6 +33,8 @@ func init() {
 			{"C11-R6", "verified identity is non-nil where used", c11r6},
 			{"C11-R7", "authorization answers are not memoised under a key that omits an input", c11r7},
 			{"C11-R8", "the CA-only exemption and the generator decide on the same field", c11r8},
+			{"C11-R9", "Gateway-API credentials are read from the config cluster", c11r9},
+			{"C11-R10", "a cached authorization answer is used only while it has not expired", c11r10},
 		},
 	})
 }
@@ -665,4 +667,102 @@ func ownerTypeOfField(v ssa.Value) types.Type {
 		return x.X.Type()
 	}
 	return nil
+}
+
+
+// C11-R9: references of the kubernetes-gateway:// and configmap:// types were verified against objects of the CONFIG
+// cluster (ReferenceGrants, the Gateway's namespace). The generator therefore reads them through the controller of
+// the config cluster: SecretGen.Generate obtains ForCluster(s.configCluster), and that controller - not the proxy
+// cluster's aggregate, which looks into the proxy's own cluster first - reaches generate. Structurally: the result of a
+// ForCluster call whose argument is the configCluster field flows into the generate call.
+func c11r9(c *Ctx) {
+	p := c.P
+	gen := p.Func(pkgXds, "SecretGen", "Generate")
+	cc := p.Field(pkgXds, "SecretGen", "configCluster")
+	var cfgCtl ssa.Value
+	eachInstr(gen, func(ins ssa.Instruction) {
+		ci, ok := ins.(ssa.CallInstruction)
+		if !ok {
+			return
+		}
+		name := ""
+		if ci.Common().IsInvoke() {
+			name = ci.Common().Method.Name()
+		} else if o := calleeObj(ins); o != nil {
+			name = o.Name()
+		}
+		if name != "ForCluster" {
+			return
+		}
+		for _, a := range ci.Common().Args {
+			if fieldOfLoad(a) == cc {
+				if v, ok := ins.(ssa.Value); ok {
+					cfgCtl = v
+				}
+			}
+		}
+	})
+	c.Check("SecretGen.Generate obtains the config cluster's credentials controller", gen.Pos(), cfgCtl != nil,
+		"Generate no longer calls ForCluster(s.configCluster): Gateway-API credential references, verified against config-cluster objects, are read through the proxy cluster's aggregate, which looks into the proxy's own cluster first - a remote gateway receives the key of a same-named Secret of its own cluster for which no grant exists, and the result is cached for config-cluster gateways")
+	if cfgCtl == nil {
+		c.Floor(1)
+		return
+	}
+	// it reaches the generation call
+	genObj := p.FuncObj(pkgXds, "SecretGen", "generate")
+	reaches := false
+	for _, call := range callsIn(gen, genObj) {
+		for _, a := range call.Common().Args {
+			var ls []ssa.Value
+			phiLeaves(a, map[ssa.Value]bool{}, &ls)
+			for _, l := range ls {
+				if ex, ok := l.(*ssa.Extract); ok && ex.Tuple == cfgCtl {
+					reaches = true
+				}
+				if l == cfgCtl {
+					reaches = true
+				}
+			}
+		}
+	}
+	c.Check("the config cluster's controller is handed to secret generation", gen.Pos(), reaches,
+		"the controller obtained for the config cluster does not reach generate(): Gateway-API references are read from another cluster's view")
+	c.Floor(2)
+}
+
+// C11-R10: the SubjectAccessReview cache. An answer is served from the cache only while its expiration lies in the
+// future: the look-up function itself reads the entry's expiration (directly or by sweeping expired entries first),
+// on every path before it reports a hit. If only the insert path sweeps, an identity's own expired "allowed" entry
+// stays until some OTHER identity misses the cache - a revoked gateway keeps receiving key material.
+func c11r10(c *Ctx) {
+	p := c.P
+	pkgCreds := "pilot/pkg/credentials/kube"
+	fn := p.Func(pkgCreds, "CredentialsController", "cachedAuthorization")
+	exp := p.Field(pkgCreds, "authorizationResponse", "expiration")
+	readsExp := func(ins ssa.Instruction) bool {
+		switch x := ins.(type) {
+		case *ssa.FieldAddr:
+			return fieldVar(x.X.Type(), x.Field) == exp
+		case *ssa.Field:
+			return fieldVar(x.X.Type(), x.Field) == exp
+		}
+		return false
+	}
+	// a hit: a return whose second result can be true
+	isHit := func(ins ssa.Instruction) bool {
+		r, ok := ins.(*ssa.Return)
+		if !ok || len(r.Results) < 2 {
+			return false
+		}
+		b, isC := constBool(retVal(r, 1))
+		return !isC || b
+	}
+	bad := pathAvoiding(fn, nil, deepMay(readsExp, 2), isHit)
+	pos := fn.Pos()
+	if bad != nil {
+		pos = bad.Pos()
+	}
+	c.Check("a cached authorization is reported only after its expiration was looked at", pos, bad == nil,
+		"cachedAuthorization can report a hit on a path that never reads the entry's expiration (neither directly nor by sweeping expired entries): an expired answer - e.g. `allowed` for a gateway whose RBAC permission was revoked - is served until an unrelated identity happens to trigger the sweep")
+	c.Floor(1)
 }
